@@ -26,9 +26,16 @@ THEOREMS = [
     "C10_f_strictly_decreasing", "C10_bracket", "C10_bracket_K1", "C10_bisection_keeps_bracket",
     "C10_width_k", "C10_python_terminates_partial", "C10_python_output_form_partial", "C10_python_output_sum_partial",
     "C10_native_if_returns_partial", "C10_constants_tie", "C10_source_shape_tie",
+    # float-level theorems about the binary32 mirror itself (Flocq; Reals axioms, see TRUSTED_BASE)
+    "C10_native32_alpha_ge_qmax", "C10_native32_weights_nonneg_or_inf", "C10_native32_fallback_finite",
+    "C10_native32_returns_finite_partial",
 ]
-MODEL_TARGETS = ["model/Solver.vo", "model/Harness.vo"]
+MODEL_TARGETS = ["model/Solver.vo", "model/LambdaF64.vo", "model/Harness.vo"]
 TRUSTED_BASE = [
+    "the four C10_native32_* theorems go through Flocq 4.1.0 (IEEE754.BinarySingleNaN, B2R) and Coq's Reals: Print "
+    "Assumptions lists ClassicalDedekindReals.sig_forall_dec, ClassicalDedekindReals.sig_not_dec, "
+    "FunctionalExtensionality.functional_extensionality_dep, Classical_Prop.classic (standard library axioms); the "
+    "eleven exact-arithmetic / tie theorems are closed under the global context",
     "Coq stdlib Floats.SpecFloat (SFadd/SFsub/SFmul/SFdiv/SFcompare at (24,128) and (53,1024)) is IEEE-754 round-to-nearest-even: "
     "validated bit for bit against the compiled tak.cpp by correspondence (a)",
     "g++ -O2 on x86-64 evaluates float expressions in binary32 without contraction/excess precision; torch CPU elementwise "
